@@ -23,6 +23,9 @@ type FileIORWManager struct {
 
 // NewFileIORWManager returns a newly initialized FileIORWManager.
 func NewFileIORWManager(path string, capacity int64) (*FileIORWManager, error) {
+	if err := verifFS("create", path, capacity, nil); err != nil {
+		return nil, err
+	}
 	fd, err := os.OpenFile(path, os.O_CREATE|os.O_RDWR, 0644)
 	if err != nil {
 		return nil, err
@@ -39,6 +42,9 @@ func NewFileIORWManager(path string, capacity int64) (*FileIORWManager, error) {
 // WriteAt writes len(b) bytes to the File starting at byte offset off.
 // `WriteAt` is a wrapper of the *File.WriteAt.
 func (fm *FileIORWManager) WriteAt(b []byte, off int64) (n int, err error) {
+	if err := verifFS("write", fm.fd.Name(), off, b); err != nil {
+		return 0, err
+	}
 	return fm.fd.WriteAt(b, off)
 }
 
@@ -53,6 +59,9 @@ func (fm *FileIORWManager) ReadAt(b []byte, off int64) (n int, err error) {
 // of recently written data to disk.
 // `Sync` is a wrapper of the *File.Sync.
 func (fm *FileIORWManager) Sync() (err error) {
+	if err := verifFS("sync", fm.fd.Name(), 0, nil); err != nil {
+		return err
+	}
 	return fm.fd.Sync()
 }
 
@@ -61,5 +70,8 @@ func (fm *FileIORWManager) Sync() (err error) {
 // be canceled and return immediately with an error.
 // `Close` is a wrapper of the *File.Close.
 func (fm *FileIORWManager) Close() (err error) {
+	if err := verifFS("close", fm.fd.Name(), 0, nil); err != nil {
+		return err
+	}
 	return fm.fd.Close()
 }
